@@ -15,6 +15,9 @@ def sh(cmd, cwd=None, timeout=3600, env=None):
     r = subprocess.run(cmd, shell=True, cwd=cwd, capture_output=True, text=True, timeout=timeout, env=e)
     return r.returncode, (r.stdout + r.stderr)
 
+CHECK_DIR = os.environ.get("VERIF_COPY", "/verif")     # a private copy of /verif lets several evaluations run in parallel
+
+
 def main():
     pid, cdir, name = sys.argv[1], sys.argv[2], sys.argv[3]
     do_tests = "--tests" in sys.argv
@@ -49,7 +52,7 @@ def main():
         for p in [pid] + also:
             for tier in tiers:
                 t0 = time.time()
-                rc, out = sh(f"./check {p} --tier {tier}", cwd="/verif", timeout=5400, env={"VERIF_REPO": wt})
+                rc, out = sh(f"./check {p} --tier {tier}", cwd=CHECK_DIR, timeout=5400, env={"VERIF_REPO": wt})
                 viol = [l for l in out.split("\n") if l.startswith("VIOLATION")]
                 first = [l for l in out.split("\n") if "violation:" in l or "BROKEN" in l][:3]
                 key = f"{p}:{tier}"
@@ -60,8 +63,8 @@ def main():
                     break
     finally:
         sh(f"git -C /repo worktree remove --force {wt}")
-        sh("rm -rf /verif/replays/*")
-        sh("/venv/bin/python -m harness.regen", cwd="/verif", env={"PYTHONPATH": "/verif:/repo", "PYTHONHASHSEED": "0"})
+        sh(f"rm -rf {CHECK_DIR}/replays/*")
+        sh("/venv/bin/python -m harness.regen", cwd=CHECK_DIR, env={"PYTHONPATH": f"{CHECK_DIR}:/repo", "PYTHONHASHSEED": "0"})
     dst = f"/verif/seeded/{name}"
     os.makedirs(dst, exist_ok=True)
     for f in ("patch.diff", "demo.py"):
